@@ -175,7 +175,6 @@ def check_object(ctx, op, cls_dense, cls_post, r, E, scale, replay, probe=None, 
         rep["result"] = lc.labels_json(r) if hasattr(r, "qn") and r.qn is not None else None
         rep["result_bond_dims"] = [int(x) for x in r.bond_dims]
         run.violation(sig, rep)
-        run.count("viol:" + sig)
 
     bd = [int(x) for x in r.bond_dims]
     if bd[0] != 1 or bd[-1] != 1:
@@ -245,7 +244,6 @@ def check_scalar(ctx, op, cls, obs, exp, tol, replay, sig_map=None, alt=None):
         rep = dict(replay)
         rep.update(expected=_c(exp), observed=_c(obs), tol=tol)
         ctx.run.violation(sig, rep)
-        ctx.run.count("viol:" + sig)
         return False
     return True
 
@@ -273,7 +271,6 @@ def guarded(ctx, op, cls, fn, replay, sig_map=None):
         rep = dict(replay)
         rep["observed"] = f"{type(e).__name__}: {e}"
         ctx.run.violation(sig, rep)
-        ctx.run.count("viol:" + sig)
         return None, False
 
 
@@ -870,7 +867,7 @@ def scen_program(ctx, model, steps):
 # --------------------------------------------------------------------------------------------
 def search(run, rng, quick):
     ctx = Ctx(run, rng, quick)
-    rounds = 34 if quick else 330
+    rounds = 300 if quick else 3300
     nmax = 5 if quick else 6
     for rd in range(rounds):
         if ctx.out_of_time():
